@@ -49,30 +49,51 @@ def isCallKind : FKind → Bool
 def fieldIdx (fs : List Field) (name : String) : Option Nat :=
   if fs.findIdx (·.name = name) < fs.length then some (fs.findIdx (·.name = name)) else none
 
-/-- steps for the fields `fs` (a suffix of the packet's fields `all`) starting at member position `i` -/
-def confFieldsE (S : Schema) (all : List Field) : Nat → List Field → List EStep → Bool
-  | _, [], [] => true
-  | i, f :: fs, steps =>
-    match f.kind, f.rep with
-    | .lengthOf t target, false =>
-      match fs, steps with
-      | f2 :: fs', .slot w1 le1 pv :: .mark sv :: st2 :: .mark ev :: .patch w2 le2 pv' sv' ev' slice :: rest =>
-        w1 = t.width && leOk S w1 le1 && w2 = t.width && leOk S w2 le2
-          && pv' = pv && sv' = sv && ev' = ev && sv != ev && pv != sv && pv != ev
-          && f2.name = target && fieldIdx all target = some (i + 1) && !f2.rep && isCallKind f2.kind && sliceOk t.width slice
-          && plainOkE S (i + 1) f2 st2 && confFieldsE S all (i + 2) fs' rest
-      | _, _ => false
-    | _, _ =>
-      match steps with
-      | st :: rest => plainOkE S i f st && confFieldsE S all (i + 1) fs rest
-      | [] => false
-  | _, _, _ => false
+/-- a length field whose slot has been written and whose target has not been reached yet -/
+structure Pending where
+  pv : String        -- the variable holding the slot's position
+  w : Nat            -- the declared width of the length field
+  target : String
+  deriving DecidableEq, Repr, Inhabited
+
+/-- what the next field is for the encoder plan -/
+inductive Role
+  | len (t : Scalar) (target : String)   -- a length-of field: its slot is written here
+  | target (p : Pending)                 -- the target of the pending length field: mark, step, mark, patch
+  | plain                                -- exactly one step
+  | bad                                  -- a second length-of field while one is pending
+  deriving Repr, Inhabited
+
+def roleOf (pend : Option Pending) (f : Field) : Role :=
+  match f.kind, f.rep, pend with
+  | .lengthOf t target, false, none => .len t target
+  | .lengthOf _ _, false, some _ => .bad
+  | _, _, some p => if f.name = p.target then .target p else .plain
+  | _, _, none => .plain
+
+/-- steps for the fields `fs` (a suffix of the packet's fields `all`) starting at member position `i`;
+`pend` is the length field whose slot is written and whose target is still to come.  The length field may be
+anywhere before its target: the slot is emitted at the length field, the fields in between are ordinary steps,
+and `mark start; target; mark end; patch` is emitted at the target. -/
+def confFieldsE (S : Schema) (all : List Field) : Option Pending → Nat → List Field → List EStep → Bool
+  | none, _, [], [] => true
+  | pend, i, f :: fs, steps =>
+    match roleOf pend f, steps with
+    | .len t target, .slot w1 le1 pv :: rest =>
+      w1 = t.width && leOk S w1 le1 && confFieldsE S all (some ⟨pv, t.width, target⟩) (i + 1) fs rest
+    | .target p, .mark sv :: st2 :: .mark ev :: .patch w2 le2 pv' sv' ev' slice :: rest =>
+      w2 = p.w && leOk S w2 le2 && pv' = p.pv && sv' = sv && ev' = ev && sv != ev && p.pv != sv && p.pv != ev
+        && fieldIdx all p.target = some i && !f.rep && isCallKind f.kind && sliceOk p.w slice
+        && plainOkE S i f st2 && confFieldsE S all none (i + 1) fs rest
+    | .plain, st :: rest => plainOkE S i f st && confFieldsE S all pend (i + 1) fs rest
+    | _, _ => false
+  | _, _, _, _ => false
 
 def namesNodup (fs : List Field) : Bool := (fs.map (·.name)).eraseDups.length = fs.length
 
 def confPacketE (S : Schema) (P : Prog) (p : Packet) : Bool :=
   match P.find p.name with
-  | some st => st.members.length = p.fields.length && confFieldsE S p.fields 0 p.fields st.enc
+  | some st => st.members.length = p.fields.length && confFieldsE S p.fields none 0 p.fields st.enc
   | none => false
 
 def confEnc (S : Schema) (P : Prog) : Bool := S.packets.all (confPacketE S P)
